@@ -1457,15 +1457,15 @@ class C07(SampleCheck):
             rng = self.rng
             nv, npar = rng.randint(1, 2), rng.randint(1, 2)
             qv = [rng.randint(1, 9) / 2.0 for _ in range(npar)]
-            tv = [rng.randint(-6, 6) / 2.0 for _ in range(nv)]
+            tv = [rng.randint(1, 6) / 2.0 for _ in range(nv)]      # positive targets, weight 2 on the parameter: no symmetry between v and q
             with B.quiet():
                 ocp = rockit.Ocp()
                 vs = [ocp.variable() for _ in range(nv)]
                 qs = [ocp.parameter() for _ in range(npar)]
                 for q, val in zip(qs, qv):
                     ocp.set_value(q, val)
-                # unique optimum: v_i = target_i + q_0
-                ocp.add_objective(sum((v - t_ - qs[0]) ** 2 for v, t_ in zip(vs, tv)))
+                # unique optimum: v_i = target_i + 2 q_0
+                ocp.add_objective(sum((v - t_ - 2 * qs[0]) ** 2 for v, t_ in zip(vs, tv)))
                 ocp.solver('ipopt', {'ipopt.print_level': 0, 'print_time': False, 'ipopt.sb': 'yes', 'ipopt.tol': 1e-12})
                 sol = ocp.solve()
                 e = vs[0] * qs[-1] + 2 * qs[0] - vs[-1]
@@ -1475,7 +1475,7 @@ class C07(SampleCheck):
             self.evaluations += 1
             self.count("toplevel-values")
             self.signatures.add("toplevel-%d-%d-%d" % (nv, npar, it))
-            want_v = [t_ + qv[0] for t_ in tv]
+            want_v = [t_ + 2 * qv[0] for t_ in tv]
             want_e = want_v[0] * qv[-1] + 2 * qv[0] - want_v[-1]
             bad = None
             if any(abs(a - b_) > 1e-9 for a, b_ in zip(got_q, qv)):
